@@ -24,11 +24,28 @@ import multiprocessing
 import os
 import random
 import re
+import time
 
 import common as C
 from common import cN, clist, cstr, cbool
 
-IMPORTS = "From DJC Require Import Lib.Base Registry.Model."
+# Elaborating polymorphic pair / list notations costs coqc ~1 ms per observation (implicit arguments solved by unification);
+# the literals are therefore built with monomorphic helpers (plain applications, nothing to infer).
+IMPORTS = """From DJC Require Import Lib.Base Registry.Model.
+Definition mkobs (o : out) (al : list (list (str * (N * N)))) (pl : list (list (str * bool)))
+  : out * list (list (str * (N * N))) * list (list (str * bool)) := (o, al, pl).
+Definition ec (n : str) (c : N * N) (r : list (str * (N * N))) := (n, c) :: r.
+Definition en : list (str * (N * N)) := [].
+Definition tc (t : str) (b : bool) (r : list (str * bool)) := (t, b) :: r.
+Definition tn : list (str * bool) := [].
+Definition ac (a : list (str * (N * N))) (r : list (list (str * (N * N)))) := a :: r.
+Definition an : list (list (str * (N * N))) := [].
+Definition lc (p : list (str * bool)) (r : list (list (str * bool))) := p :: r.
+Definition ln : list (list (str * bool)) := [].
+Definition sc (o : wop) (q : out * list (list (str * (N * N))) * list (list (str * bool)))
+  (r : list (wop * (out * list (list (str * (N * N))) * list (list (str * bool))))) := (o, q) :: r.
+Definition sn : list (wop * (out * list (list (str * (N * N))) * list (list (str * bool)))) := [].
+"""
 WOBS = "out * list (list (str * (N * N))) * list (list (str * bool))"
 CFG = "list (list str * list str) * list (nat * fmtspec)"
 TREE_TYPE = CFG + " * oforest"
@@ -456,8 +473,8 @@ def op_term(i, o):
 @memo
 def _all_term(items):
     if items is None:                                                   # not a dict: equals no model value
-        return I.get("a", "list (str * (N * N))", "[(%s, %s); (%s, %s)]" % (istr(""), ccls(None), istr(""), ccls(None)))
-    return I.get("a", "list (str * (N * N))", clist(["(%s, %s)" % (istr(n), ccls(k)) for n, k in items]))
+        items = (("", None), ("", None))
+    return I.get("a", "list (str * (N * N))", chain(["ec %s %s" % (istr(n), ccls(k)) for n, k in items], "en"))
 
 
 def all_term(d):
@@ -478,7 +495,7 @@ def out_term(res):
 
 @memo
 def _snap_term(items):
-    return I.get("p", "list (str * bool)", clist(["(%s, %s)" % (istr(t), cbool(b)) for t, b in items]))
+    return I.get("p", "list (str * bool)", chain(["tc %s %s" % (istr(t), cbool(b)) for t, b in items], "tn"))
 
 
 def snap_term(s):
@@ -487,21 +504,41 @@ def snap_term(s):
 
 @memo
 def _alls_term(names):
-    return I.get("al", "list (list (str * (N * N)))", clist(names))
+    return I.get("al", "list (list (str * (N * N)))", chain(["ac %s" % n for n in names], "an"))
 
 
 @memo
 def _snaps_term(names):
-    return I.get("pl", "list (list (str * bool))", clist(names))
+    return I.get("pl", "list (list (str * bool))", chain(["lc %s" % n for n in names], "ln"))
 
 
 @memo
 def _obs_term(out, al, pl):
-    return I.get("q", WOBS, "(%s, %s, %s)" % (out, al, pl))
+    return I.get("q", WOBS, "mkobs %s %s %s" % (out, al, pl))
 
 
 def obs_term(res, alls, snaps):
     return _obs_term(out_term(res), _alls_term(tuple(all_term(a) for a in alls)), _snaps_term(tuple(snap_term(s) for s in snaps)))
+
+
+def obs_inline(res, alls, snaps):
+    """the same with nothing but strings and classes defined by name (random histories: observations are hardly ever repeated,
+    and a Definition costs more than elaborating its body once)"""
+    def ent(d):
+        items = tuple(d.items()) if isinstance(d, dict) else (("", None), ("", None))
+        return chain(["ec %s %s" % (istr(n), ccls(k)) for n, k in items], "en")
+    r = out_term(res) if res[0] != "all" else "(RAll (%s))" % ent(res[1])
+    al = chain(["ac (%s)" % ent(a) for a in alls], "an")
+    pl = chain(["lc (%s)" % chain(["tc %s %s" % (istr(t), cbool(b)) for t, b in sn.items()], "tn") for sn in snaps], "ln")
+    return "(mkobs %s (%s) (%s))" % (r, al, pl)
+
+
+def chain(heads, nil):
+    """`h1 (h2 (... nil))` for monomorphic cons-like helpers"""
+    t = nil
+    for h in reversed(heads):
+        t = "%s %s" % (h, t if t == nil else "(%s)" % t)
+    return t
 
 
 @memo
@@ -518,7 +555,7 @@ def cfg_term(libspecs, regspecs):
 
 def path_term(libspecs, regspecs, ops, obs):
     ls, rs = cfg_term(libspecs, regspecs)
-    return "(%s, %s, %s)" % (ls, rs, clist(["(%s, %s)" % (op_term(i, o), obs_term(*ob)) for (i, o), ob in zip(ops, obs)]))
+    return "(%s, %s, %s)" % (ls, rs, chain(["sc %s %s" % (op_term(i, o), obs_inline(*ob)) for (i, o), ob in zip(ops, obs)], "sn"))
 
 
 def forest_term(kids):
@@ -619,6 +656,7 @@ def walk_task(task, collect_paths=False):
     counts, digests of the non-trivial histories, oracle failures, notes - and, if asked, every maximal history."""
     jid, prefix, seen0, g = task
     job = JOBS[jid]
+    t_cpu = time.process_time()
     ls, rs, L, alpha, orbit, claimed = job["ls"], job["rs"], job["L"], job["alpha"], job["orbit"], job["claimed"]
     notes = collections.Counter()
     res = {"leaves": 0, "nontrivial": [], "fails": [], "paths": []}
@@ -689,6 +727,7 @@ def walk_task(task, collect_paths=False):
     res["notes"] = notes
     res["defs"] = I.drain()
     res["task"] = task
+    res["cpu"] = time.process_time() - t_cpu
     return res
 
 
@@ -978,8 +1017,12 @@ def run(tier, seed):
             return
         per_file = max(20000, min(100000, batch["nodes"] // C.NCPU + 1))
         per_term = max(1, batch["nodes"] // len(batch["terms"]))
+        t0 = os.times()
         bad = C.coq_eval_cases("C15", "tree%d" % batch["n"] + pid, IMPORTS, TREE_TYPE, "check_forest_case", batch["terms"],
                                shard=max(1, per_file // per_term), extra_defs=defs_text(defs, batch["used"]))
+        t1 = os.times()
+        ts = tree_stats[batch["group"]]
+        ts["coqc_cpu_s"] = ts.get("coqc_cpu_s", 0) + (t1.children_user + t1.children_system - t0.children_user - t0.children_system)
         btasks = batch["tasks"]
         batch.update({"terms": [], "tasks": [], "used": set(), "nodes": 0, "n": batch["n"] + 1})
         # a property failure found by the direct oracle is what will be reported: do not spend time on locating model differences then
@@ -997,6 +1040,7 @@ def run(tier, seed):
                 flush()
                 last = task_group[ti]
             job = JOBS[r["task"][0]]
+            batch["group"] = task_group[ti]
             batch["terms"].append(r["term"])
             batch["tasks"].append(r["task"])
             batch["used"] |= r["used"]
@@ -1007,6 +1051,7 @@ def run(tier, seed):
             ts["subtrees"] += 1
             ts["calls_compared"] += r["nodes"]
             ts["maximal_histories"] += r["leaves"]
+            ts["walk_cpu_s"] = ts.get("walk_cpu_s", 0) + r["cpu"]
             chk.dist[job["kind"]] += r["leaves"]
             if job["claimed"]:
                 chk.evaluations += r["leaves"]
@@ -1020,6 +1065,9 @@ def run(tier, seed):
         pool.terminate()
         pool.join()
     tree_stats = list(tree_stats.values())
+    for ts in tree_stats:
+        ts["walk_cpu_s"] = round(ts.get("walk_cpu_s", 0), 1)
+        ts["coqc_cpu_s"] = round(ts.get("coqc_cpu_s", 0), 1)
 
     # ---- random long histories (one path case each) ----
     rterms, rcases, dterms, dcases = [], [], [], []
